@@ -480,6 +480,36 @@ def run(rep, pdb, tier):
         ctx = Ctx.for_fn(pdb, fn)
         wl = [n for n in walk(fn["body"]) if n.get("k") == "While"]
         ok = len(wl) == 1
+        if not wl:
+            # the search form: `let keep = match coeffs.iter().rposition(|c| !(*c == zero)) { Some(top) => top + 1, None => 1 }; coeffs.truncate(keep)`
+            # - everything up to the highest non-zero coefficient, and at least the constant term
+            tr = [n for n in walk(fn["body"]) if n.get("k") == "MethodCall" and n.get("name") == "truncate" and ctx.term(n["recv"]) == CO0 and len(n.get("args", [])) == 1]
+            oks = False
+            if len(tr) == 1:
+                kn = strip(tr[0]["args"][0])
+                kb = ctx.binds.get(kn["v"]) if kn.get("k") == "Local" else None
+                m_ = strip(kb.init) if kb is not None and kb.init is not None and not kb.mut else kn
+                if m_.get("k") == "Match" and len(m_.get("arms", [])) == 2:
+                    sc = strip(m_["scrut"])
+                    src = strip(sc.get("recv") or {}) if sc.get("k") == "MethodCall" and sc.get("name") == "rposition" and len(sc.get("args", [])) == 1 else {}
+                    from_coeffs = src.get("k") == "MethodCall" and src.get("name") == "iter" and ctx.term(src["recv"]) == CO0
+                    cl = strip(sc["args"][0]) if from_coeffs else {}
+                    pred_ok = False
+                    if cl.get("k") == "Closure" and len(cl.get("params", [])) == 1 and cl["params"][0].get("k") == "Bind":
+                        cv = ("var", cl["params"][0]["v"])
+                        ats = cond_atoms(ctx, cl["body"], True)
+                        pred_ok = len(ats) == 1 and ats[0][0] == "cmp" and ats[0][1] == "!=" and ((ats[0][2] == cv and is_zero_term(ats[0][3])) or (ats[0][3] == cv and is_zero_term(ats[0][2])))
+                    some = [a for a in m_["arms"] if str(a["pat"].get("path", "")).endswith("Some")]
+                    none = [a for a in m_["arms"] if a not in some]
+                    arms_ok = False
+                    if len(some) == 1 and len(none) == 1:
+                        ps_ = some[0]["pat"].get("ps") or []
+                        if len(ps_) == 1 and ps_[0].get("k") == "Bind":
+                            arms_ok = ctx.term(some[0]["body"]) == lin_add(("var", ps_[0]["v"]), num(1)) and ctx.term(none[0]["body"]) == num(1)
+                    others = [n for n in walk(fn["body"]) if n.get("k") == "MethodCall" and n.get("name") in ("pop", "clear", "remove", "drain", "push", "resize") and ctx.term(n["recv"]) == CO0]
+                    oks = from_coeffs and pred_ok and arms_ok and not others
+            rep.add("trim", rule, oks, fn["body"], "search form (rposition of the highest non-zero coefficient, truncate to it, at least one kept)", where=loc(fn["body"]))
+            ok = None
         if ok:
             w = wl[0]
             atoms = cond_atoms(ctx, w["cond"], True)
